@@ -271,6 +271,7 @@ public:
         p_.resize(i);
         p_.push_back(x);
     }
+    void merge(ExactSum const& o) { for (long double x : o.p_) add(x); }
     // correctly rounded-ish (error < 1 ulp of long double) value of the exact sum
     long double value() const
     {
